@@ -244,6 +244,8 @@ class Checker:
                     if pe.tag in context:
                         if value != context[pe.tag]:
                             continue
+                        if not self._check_cons(value, context, pe.cons_sets):
+                            continue
                         matches.append(-1)
                     else:
                         if not self._check_cons(value, context, pe.cons_sets):
